@@ -64,9 +64,11 @@ PROPS = {
         "rules": [BR.r_bracket, BR.r_reader_writer, BR.r_fanout, BR.r_columns, FW.r_forward,
                   todo({"push", "index"}, ("Region", "Push")), X.r_iter_readitems,
                   A.r_freeze, A.r_foreign_writers, A.r_reject_stored, I.r_concat, CD.r_tags, CD.r_bitmap, CD.r_literal_guard, O.r_zip_byref, FW.r_skip_take,
-                  L.r_reset, A.r_append, CD.r_stats, FW.r_pushstorage, CD.r_decode_total, O.r_byref_while],
+                  L.r_reset, A.r_append, CD.r_stats, FW.r_pushstorage, CD.r_decode_total, O.r_byref_while, CD.r_bytesmap, HF.r_chunk, HF.r_chunk_align, I.r_len_step],
         "explanation": "Static analysis of the un-instantiated MIR of every Push/Region impl: decides the structural necessary conditions of the round trip for all instantiations and paths, not the value equality itself.",
         "decided": [
+            "R-CHUNK (alignment): every (chunk, count) pair BitIterator::next returns shifts the byte by 8 - (cursor % 8) - count: the chunk starts at the cursor's offset within the byte (an item that starts and ends inside one byte is not read from the top of the byte)",
+
             "R-BRACKET: every non-forwarding push of a (start,end)/position-indexed storage returns (len before its appends, len after) resp. len-1-seed, with exactly the appends on that storage in between",
             "R-READER: index() consumes the components push returned, in order, without arithmetic, from the storage push appended to",
             "R-FANOUT: Option/Result/Tuple push route component i to child i to index position i and index() routes back",
@@ -82,22 +84,26 @@ PROPS = {
         "not_decided": ["element-for-element equality of values, NaN/ZST/extreme values, panics inside std", "lossy integer narrowing of values that the writer and the reader side both derive from one source (seeded change C01_d2: Huffman encode table narrowed to u32 codes; whether a value fits is value-level)", COMMON_ND],
     },
     "C02": {
-        "rules": [A.r_append, A.r_freeze, A.r_foreign_writers, A.r_reject_stored, I.r_concat, CO.r_collapse_push, HF.r_chunk],
+        "rules": [A.r_append, A.r_freeze, A.r_foreign_writers, A.r_reject_stored, I.r_concat, CO.r_collapse_push, HF.r_chunk, HF.r_chunk_align,
+                  only(L.r_reset, INDEX_ONLY | DENSE_ONLY)],
         "thorough": [X.witness("C02")],
         "explanation": "Every body reachable from the write/reserve API (closures and local helpers included) is scanned for destructive, clearing or replacing effects on item storage; the one Vec::pop is justified by R-PEEL; the representation switches are guarded (R-GUARD).",
         "decided": [
+            "R-CHUNK (alignment): every (chunk, count) pair BitIterator::next returns shifts the byte by 8 - (cursor % 8) - count: the chunk starts at the cursor's offset within the byte (an item that starts and ends inside one byte is not read from the top of the byte)",
+
             "R-APPEND: no destructive/clear/replace effect on item storage in any push/reserve path",
             "R-PEEL: the Huffman partial-byte pop happens only when the cursor is unaligned, the byte is re-presented to the encoder and re-emitted",
             "R-GUARD: IndexList writes smol only while chonk is empty; IndexOptimized writes strided only while nothing spilled",
             "CollapseSequence's collapse path performs no write",
+            "R-RESET (offset containers): clear() empties both levels of the offset containers (a level that survives keeps stale offsets in front of the ones issued after the clear)",
             "R-CHUNK: the reader of a bit-packed item never advances past the item's own end bit (bits beyond it belong to later pushes: what an earlier index reads would change when they are written)",
         ],
         "not_decided": ["that Stride's in-place state transition preserves earlier elements (value-level; C05; seeded change C02_f1, a merged Striding/Saturated variant that resumes striding after saturation, is not detected)", "bit arithmetic of the Huffman cursor", COMMON_ND],
     },
     "C03": {
-        "rules": [FS.r_pairing, FS.r_delegation, only(L.r_reset, {"FlatStack"}), only(L.r_clone, FS_ONLY | INDEX_ONLY),
+        "rules": [FS.r_pairing, FS.r_delegation, only(L.r_reset, {"FlatStack"} | INDEX_ONLY), only(L.r_clone, FS_ONLY | INDEX_ONLY),
                   B.r_index_failstop, B.r_bound_stride_sites, A.r_freeze, A.r_foreign_writers, I.r_concat, I.r_stride_iter, AL.r_reserve_hint_lower,
-                  I.r_len_step, L.r_storage_clear, O.r_byref_while],
+                  I.r_len_step, L.r_storage_clear, O.r_byref_while, I.r_accept_exact],
         "thorough": [X.witness("C03")],
         "explanation": "FlatStack's pairing of region indices with the index container and its delegation table are checked on the MIR for every R and S.",
         "decided": [
@@ -112,7 +118,7 @@ PROPS = {
     },
     "C04": {
         "rules": [S.r_unsafe, S.r_strwrite, only(BR.r_bracket, {"OwnedRegion", "ConsecutiveIndexPairs"}),
-                  BR.r_reader_writer, CD.r_tags, CD.r_bitmap, CD.r_literal_guard, L.r_clone, A.r_freeze, A.r_foreign_writers, L.r_reserve_only, L.r_reset, X.r_iter_readitems],
+                  BR.r_reader_writer, CD.r_tags, CD.r_bitmap, CD.r_literal_guard, L.r_clone, A.r_freeze, A.r_foreign_writers, L.r_reserve_only, L.r_reset, X.r_iter_readitems, CD.r_bytesmap, O.r_byref_while],
         "thorough": [X.witness("C04")],
         "explanation": "Program-text property: inventory of unchecked str constructions and of everything that can write StringRegion's byte region, over the type-checked crate.",
         "decided": [
@@ -127,7 +133,7 @@ PROPS = {
         "not_decided": ["that the inner byte region returns exactly the pushed byte range (C01/C02 clauses)", "deserialising foreign data", "capacity limits inside the dictionary's tables (seeded change C04_f2: 16-bit offsets in BytesMap silently drop entries the writer table still uses)"],
     },
     "C05": {
-        "rules": [O.r_byref_while, I.r_ovf, I.r_panic_edges, I.r_nowrite_on_reject, I.r_len_step, A.r_freeze, A.r_foreign_writers, A.r_reject_stored, I.r_concat, I.r_stride_iter,
+        "rules": [O.r_byref_while, I.r_ovf, I.r_accept_exact, I.r_panic_edges, I.r_nowrite_on_reject, I.r_len_step, A.r_freeze, A.r_foreign_writers, A.r_reject_stored, I.r_concat, I.r_stride_iter,
                   B.r_bound_stride_sites, B.r_index_failstop, only(L.r_reset, {"Stride", "IndexList", "IndexOptimized"}), only(L.r_clone, INDEX_ONLY)],
         "explanation": "Overflow-checked arithmetic is visible in MIR as Assert(Overflow) terminators; taint from pushed values is propagated through the Stride state; the representation order of the two-level containers is checked for agreement between push, index, len, is_empty, iter and clear.",
         "decided": [
@@ -142,9 +148,11 @@ PROPS = {
     },
     "C06": {
         "rules": [HF.r_refusal, HF.r_code_source, HF.r_stats_and_arms, only(BR.r_bracket, HUFF_ONLY), c06_peel,
-                  only(L.r_reset, HUFF_ONLY), FW.r_forward, HF.r_shift, HF.r_descent, HF.r_tail, HF.r_chunk, only(L.r_clone, HUFF_ONLY), O.r_onto],
+                  only(L.r_reset, HUFF_ONLY), FW.r_forward, HF.r_shift, HF.r_acc_width, HF.r_weights, HF.r_descent, HF.r_tail, HF.r_chunk, HF.r_chunk_align, only(L.r_clone, HUFF_ONLY), O.r_onto],
         "explanation": "Only the structural clauses of the Huffman contract are decided; exact decoding, optimality and alphabet-size behaviour are numeric and stay undecided.",
         "decided": [
+            "R-CHUNK (alignment): every (chunk, count) pair BitIterator::next returns shifts the byte by 8 - (cursor % 8) - count: the chunk starts at the cursor's offset within the byte (an item that starts and ends inside one byte is not read from the top of the byte)",
+
             "R-REFUSE: a symbol without a code reaches only a panicking unwrap, never a substitute code",
             "R-CODE-SOURCE: merge_regions derives the code only from the arguments' summed stats; the container starts with empty stats and buffer",
             "R-HUFF-ARMS: every canonical push counts each symbol once and stores the same symbols in the active representation",
@@ -160,7 +168,7 @@ PROPS = {
     },
     "C07": {
         "rules": [CD.r_literal_guard, CD.r_emptiness, CD.r_tags, CD.r_bitmap, CD.r_stats,
-                  only(L.r_reset, CODEC_ONLY | {"DictionaryCodec"}), only(L.r_fresh, CODEC_ONLY), CD.r_dedup, L.r_reserve_only, CD.r_update_weight, CD.r_decode_total],
+                  only(L.r_reset, CODEC_ONLY | {"DictionaryCodec"}), only(L.r_fresh, CODEC_ONLY), CD.r_dedup, L.r_reserve_only, CD.r_update_weight, CD.r_decode_total, CD.r_bytesmap, CD.r_stats_order, CD.r_done_lossless, only(A.r_append, CODEC_ONLY | {"DictionaryCodec"})],
         "explanation": "Reader/writer table agreement and guard placement of the dictionary codec are decided on the MIR; selection quality of the heavy hitters is not.",
         "decided": [
             "R-GUARD: the literal store is reachable only over an edge that saw an empty input or an unassigned first byte in the reader's table",
@@ -169,6 +177,8 @@ PROPS = {
             "R-BITMAP: recording and testing the first-byte bitmap use the same word/bit functions",
             "R-STATS: every accepted input (tag hit or literal) enters the heavy-hitter summary and the first-byte bitmap",
             "dictionary hit stores exactly the tag byte; CodecRegion::clear resets the codec; merge_regions builds it via Codec::new_from",
+            "R-BYTESMAP: the reader table answers Some only for a non-empty range (an empty range is how an unassigned slot is stored)",
+            "R-STATS (ranking): both sorts of the heavy-hitter summary rank the heaviest first (tidy truncates the tail, new_from assigns tags in that order)",
             "R-DECODE: decode returns its argument unchanged only where an empty input or an unassigned first byte was established (a fast path that skips the reader's table for some assigned tags returns the tag byte instead of the entry)",
             "R-RESERVE-ONLY: reserve paths never train, replace or reset the codec (a codec swapped in by reserve_regions re-interprets the bytes already stored and refuses inputs the untrained region accepts)",
             "R-WEIGHT: every path of the heavy-hitter summary's update that changes a weight adds the caller's count (a fast path that adds a constant under-counts run-length updates)",
@@ -192,7 +202,7 @@ PROPS = {
     "C10": {
         "rules": [L.r_reserve_only, L.r_fresh, L.r_seed,
                   todo({"reserve_items", "reserve_regions", "merge_regions", "reserve", "with_capacity"}),
-                  CD.r_tags, CD.r_bitmap, HF.r_code_source, CD.r_stats, c06_peel, HF.r_stats_and_arms, L.r_merge_sources_may_be_empty],
+                  CD.r_tags, CD.r_bitmap, HF.r_code_source, CD.r_stats, c06_peel, HF.r_stats_and_arms, L.r_merge_sources_may_be_empty, CD.r_bytesmap, HF.r_tail, CD.r_literal_guard, HF.r_refusal],
         "explanation": "Reserve paths may only read/measure/reserve; merged regions are built from empty-sized constructors and seeded like default().",
         "decided": ["R-RESERVE-ONLY", "R-FRESH", "R-SEED", "R-TODO", "for the dictionary-coded region, the merged codec's reader and writer tables agree (R-TAGS/R-BITMAP)",
             "R-FRESH (empty sources): no merge / reserve body looks a source up at `len - k` without a test that it is non-empty (sources may be fresh or cleared regions)",
@@ -203,7 +213,8 @@ PROPS = {
     },
     "C11": {
         "rules": [CO.r_collapse_push, only(L.r_reset, CS_ONLY), only(L.r_fresh, CS_ONLY), L.r_clone,
-                  only(SD.r_serde, CS_ONLY), L.r_reserve_only, CO.r_collapse_remembers],
+                  only(SD.r_serde, CS_ONLY), L.r_reserve_only, CO.r_collapse_remembers, L.r_reset,
+                  I.r_concat, I.r_stride_iter, B.r_bound_stride_sites],
         "explanation": "The collapse decision and the lifecycle of last_index are path properties of one small function and five lifecycle methods.",
         "decided": ["R-COLLAPSE: early return only on the equality-true edge against inner.index(last_index), writes nothing; otherwise one inner.push whose result is remembered and returned",
                     "last_index is None after default/merge_regions/clear, copied by clone/clone_from (R-CLONE for every region it can be nested in), serialised",
@@ -212,7 +223,7 @@ PROPS = {
         "not_decided": ["properties of the user's PartialEq (NaN-like values)"],
     },
     "C12": {
-        "rules": [only(BR.r_bracket, DENSE_ONLY), only(L.r_seed, DENSE_ONLY), only(L.r_reset, DENSE_ONLY),
+        "rules": [only(BR.r_bracket, DENSE_ONLY), only(L.r_seed, DENSE_ONLY), only(L.r_reset, DENSE_ONLY | INDEX_ONLY), L.r_storage_clear,
                   BR.r_reader_writer, BR.r_columns, only(A.r_append, DENSE_ONLY), only(L.r_fresh, DENSE_ONLY),
                   BR.r_bracket, A.r_freeze, A.r_foreign_writers, A.r_reject_stored, I.r_concat, only(L.r_clone, DENSE_ONLY), O.r_onto, I.r_len_step, X.r_iter_readitems],
         "explanation": "Dense indices follow from one append of the end offset per push, the seeded leading 0 and index(k) = (offsets[k], offsets[k+1]).",
@@ -228,7 +239,7 @@ PROPS = {
     "C13": {
         "rules": [B.r_bound_readitems, B.r_index_failstop, B.r_bound_stride_sites, X.r_iter_readitems,
                   X.r_iter_positions, A.r_freeze, A.r_foreign_writers, X.r_exact_size, I.r_concat, I.r_stride_iter,
-                  BR.r_reader_writer, only(L.r_clone, DENSE_ONLY | INDEX_ONLY), only(L.r_reset, DENSE_ONLY), FW.r_skip_take, BR.r_bracket, L.r_reserve_only],
+                  BR.r_reader_writer, only(L.r_clone, DENSE_ONLY | INDEX_ONLY), only(L.r_reset, DENSE_ONLY), FW.r_skip_take, BR.r_bracket, L.r_reserve_only, BR.r_columns, O.r_byref_while],
         "explanation": "Every positional access into shared storage must be dominated by a strict bound of the position against the item's own extent (the linear form len() returns).",
         "decided": ["R-BOUND for ReadSlice/ReadSliceInner/ReadColumns/ReadColumnsInner/FlatStack get", "len/is_empty agreement", "R-ITER: iteration covers start..end; every iterator method (next and specialisations) takes its positions from the underlying range iterator",
             "R-GUARD: the two-level offset containers that positional reads go through keep push order (the first level is written only while the second is empty), so position i of an item is never another item's element",
@@ -250,9 +261,10 @@ PROPS = {
         "not_decided": ["equality of the results", "memoised region-to-region copies (seeded change C14_g1: a memo of already copied items keyed by the target's instead of the source's index; which key identifies equal content is value-level, and a correct memo skips pushes just the same)"],
     },
     "C15": {
-        "rules": [CMP.r_cmp, cmp_zip],
+        "rules": [CMP.r_cmp, cmp_zip, X.r_iter_readitems],
         "explanation": "Comparison impls must delegate to the matching comparator family with self/other in order in every arm.",
         "decided": ["R-CMP for ReadSlice, ReadColumns and Wrapped: every comparator call is of the impl's own family, takes the self-side first and the other-side second, no skipping/reversing adaptor, result returned unchanged",
+                    "R-ITER: the iterators the comparisons walk yield both representations of a slice front to back (a borrowed item walked from the back compares as its reverse)",
                     "R-ZIP: a hand-rolled lock-step comparison does not put a by_ref() iterator that is polled again afterwards on the left of zip (zip takes from its left side before it learns the right side ended)"],
         "not_decided": ["lexicographic semantics of Iterator::cmp (trusted std), user Ord laws",
                         "hand-written element loops without a comparator call, and fast paths that compare the encoded representation instead of the decoded elements (whether two encodings are equal exactly when the values are is value-level; seeded change C15_c3 is not detected)"],
@@ -268,11 +280,13 @@ PROPS = {
         "assumptions": ["only meaningful in the serde feature configuration"],
     },
     "C17": {
-        "rules": [AL.r_cover_merge, AL.r_cover_reserve, AL.r_cover_reserve_vec, AL.r_reserve_items_agree, AL.r_reserve_exact_count, AL.r_noalloc, AL.r_reserve_no_truncation, AL.r_reserve_hint_lower, AL.r_reserve_additional, AL.r_reserve_cumulative, AL.r_capacity_uncapped, FW.r_skip_take],
+        "rules": [AL.r_cover_merge, AL.r_cover_reserve, AL.r_cover_reserve_vec, AL.r_reserve_items_agree, AL.r_reserve_exact_count, AL.r_noalloc, AL.r_reserve_no_truncation, AL.r_reserve_hint_lower, AL.r_reserve_additional, AL.r_reserve_cumulative, AL.r_capacity_uncapped, FW.r_skip_take, A.r_reserve_level, AL.r_reserve_counts_elements],
         "explanation": "Pre-sizing must cover every storage field from the same-named field of the sources; push paths of non-coded regions build no temporaries and never exact-fit.",
         "decided": ["R-COVER(merge_regions)", "R-COVER(reserve_regions)", "R-RESERVE-ITEMS", "R-NOALLOC / R-AMORTISED",
             "R-RESERVE-ITEMS (additional): no reserve amount contains the receiver's own length",
             "R-RESERVE-ITEMS (un-stepped): an iterator of announced items that was advanced by hand is not handed to a child's reserve afterwards",
+            "R-COVER (level): reserve of the u32/u64 list reaches the level the next push writes to",
+            "R-RESERVE-ITEMS (elements): a reservation for items that are themselves iterators counts their elements (flat_map / per-item count), not the items",
             "R-COVER (uncapped): with_capacity / reserve / merge entry points pass the requested amount to the allocation call without a min/clamp cap",
             "skip-take: a read item's element stream handed to reserve_items is not cut short by take(len).skip(start) / skip(start).take(end)",
             "R-COVER (cumulative): no reserve path reserves one storage once per source in a loop with that source's size (reserve is relative to the current length: the calls do not add up)"],
@@ -288,16 +302,17 @@ PROPS = {
     },
     "C19": {
         "rules": [c19_freeze, X.r_index_types, A.r_noheap_until_spill, only(BR.r_bracket, DENSE_ONLY),
-                  only(L.r_seed, DENSE_ONLY), only(L.r_reset, {"FlatStack"} | DENSE_ONLY | INDEX_ONLY), only(L.r_clone, INDEX_ONLY)],
+                  only(L.r_seed, DENSE_ONLY), only(L.r_reset, {"FlatStack"} | DENSE_ONLY | INDEX_ONLY), only(L.r_clone, INDEX_ONLY), A.r_spill_unattempted, I.r_concat],
         "explanation": "Cheapest-first order of the representations is a guard property; the zero-heap claim for Stride follows from its field types.",
         "decided": ["R-GUARD: the cheap representation is attempted whenever the expensive one is still empty, and the first spill happens only after that attempt failed",
                     "type inventory: Stride has only usize fields; IndexList stores u32 in S and u64 in L",
                     "R-NOHEAP: the spill list gets no capacity before something spilled", "dense outward indices of ConsecutiveIndexPairs (R-BRACKET/R-SEED) keep FlatStack's own indices strided",
+                    "R-GUARD (bulk paths): outside push, no method of a two-level container appends to the costly level unconditionally; R-CONCAT: is_empty looks at both levels (the stride is abandoned for good once anything spilled)",
                     "R-RESET / R-CLONE: clear() resets the region together with the indices (dense indices restart at 0, so a refilled stack stays strided), and clone_from of the index containers copies both levels (a stale wide list left behind keeps every later index at 8 bytes)"],
         "not_decided": ["that Stride::push accepts every strided/saturated sequence (value-level; seeded change C19_e1, which rejects the repeated last element when the next step would overflow, is reported by C05's R-OVF only)"],
     },
     "C20": {
-        "rules": [FW.r_forward, FW.r_sibling, FW.r_pushstorage, A.r_freeze, A.r_foreign_writers, A.r_reject_stored, FW.r_skip_take, HF.r_stats_and_arms, BR.r_columns, O.r_byref_while],
+        "rules": [FW.r_forward, FW.r_sibling, FW.r_pushstorage, A.r_freeze, A.r_foreign_writers, A.r_reject_stored, FW.r_skip_take, HF.r_stats_and_arms, BR.r_columns, O.r_byref_while, BR.r_bracket],
         "explanation": "Forwarding impls pass the same value on through representation-preserving conversions; canonical impls of one region have the same effect signature; the bulk path of the offset containers (IndexContainer::extend, used by the slice/Vec/array forms) obeys the same representation-switch guards as the element-wise push (used by the read-item form).",
         "decided": ["R-FORWARD", "R-SIBLING", "PushStorage forms are all append-class",
                     "R-GUARD: bulk and element-wise writes of the two-level offset containers append to the first level only while the second is empty (a guard hoisted out of a loop that spills goes stale and is not accepted), and a value the stride rejects is stored in the spill list"],
